@@ -56,6 +56,8 @@ def random_tree(rng, U, depth):
 
 def leaf_ok(tree, parent):
     k = tree[0]
+    if k == "incl":
+        return not tree[2].inter(parent).empty()
     if k == "val":
         return parent.contains(tree[1])
     if k == "range":
@@ -81,7 +83,7 @@ def legal(tree, parent):
         return False
     # every operand must denote a non-empty set too
     def sub(t):
-        if t[0] in ("val", "range"):
+        if t[0] in ("val", "range", "incl"):
             return not C.eval_tree(t, parent).empty()
         if t[0] == "allexcept":
             return sub(t[1])
@@ -91,6 +93,8 @@ def legal(tree, parent):
 
 def tree_ops(tree):
     k = tree[0]
+    if k == "incl":
+        return {"contained"}
     if k in ("val", "range"):
         if k == "range" and (tree[1] == MIN or tree[2] == MAX):
             return {"minmax"}
@@ -177,6 +181,36 @@ def build_cases(tier, seed, rng):
             out.append((kind, [[(a, e1, None), (b, e2, None)]], "serial"))
         else:
             out.append((kind, [[(a, e1, None)], [(b, e2, None)]], "ref-chain"))
+    # depth 3: (leaf op leaf) op leaf and leaf op (leaf op leaf) over the small universe, sampled
+    for U, kind, parent, cnt in ((U_INT, "INTEGER", allint, 150 if quick else 3000), (U_SIZE, "OCTET STRING", nonneg, 60 if quick else 1200)):
+        LL = leaves(U)
+        made = 0
+        for _ in range(cnt * 4):
+            if made >= cnt:
+                break
+            a, b, c = rng.choice(LL), rng.choice(LL), rng.choice(LL)
+            o1, o2 = rng.choice(["union", "inter", "except"]), rng.choice(["union", "inter", "except"])
+            tr = (o2, (o1, a, b), c) if rng.random() < 0.5 else (o2, c, (o1, a, b))
+            if legal(tr, parent):
+                out.append((kind, [[(tr, rng.random() < 0.25, None)]], "depth-3"))
+                made += 1
+    # contained subtypes: (Base), (INCLUDES Base), combined with ranges; the base may be extensible (not inherited)
+    for i in range(40 if quick else 600):
+        a = rng.choice(L)
+        if not legal(a, allint):
+            continue
+        aset = C.eval_tree(a, allint)
+        bext = rng.random() < 0.5
+        form = rng.choice(["plain", "includes", "union", "inter"])
+        leaf = ("incl", "@base", aset, form == "includes")
+        if form in ("plain", "includes"):
+            tr = leaf
+        else:
+            b = rng.choice(L)
+            tr = ("union" if form == "union" else "inter", leaf, b) if rng.random() < 0.5 else ("union" if form == "union" else "inter", b, leaf)
+        if not legal(tr, allint):
+            continue
+        out.append(("INTEGER", [("base", [(a, bext, None)]), [(tr, rng.random() < 0.2, None)]], "contained-subtype"))
     # random trees over 64-bit / 64K boundary values
     for i in range(80 if quick else 1500):
         tr = random_tree(rng, BIG_INT, rng.choice([1, 2, 2, 3]))
@@ -303,6 +337,14 @@ def size_values(mod, t, kind, rng):
 SETRE = re.compile(r"^\((.*)\)$")
 
 
+class Printed(tuple):
+    """(lb, ub, ext, empty) as printed by asn1c, plus the printed set of intervals"""
+    def __new__(cls, t, iset):
+        o = tuple.__new__(cls, t)
+        o.iset = iset
+        return o
+
+
 def parse_printed(s):
     """'(1..5 | 8..10 | 20,...)' -> (lb, ub, ext, empty) with None for MIN/MAX"""
     s = s.strip()
@@ -332,7 +374,7 @@ def parse_printed(s):
             return None
     lb = None if None in lo else min(lo)
     ub = None if None in hi else max(hi)
-    return lb, ub, ext, empty
+    return Printed((lb, ub, ext, empty), C.IntSet(list(zip(lo, hi))))
 
 
 def printed_constraints(text, names_kinds):
@@ -395,8 +437,16 @@ def run(tier, seed):
         for i, (kind, levels, family) in enumerate(chunk):
             name = None
             prev = None
+            basename = None
             for li, lv in enumerate(levels):
                 name = "T%dx%d" % (i, li)
+                if isinstance(lv, tuple) and lv[0] == "base":
+                    # the type named by the contained-subtype leaves of the next level (not a parent in the reference chain)
+                    basename = name
+                    mod.add(name, mk_type(kind, Constraint(lv[1])))
+                    continue
+                if basename:
+                    lv = [(subst_incl(sp[0], basename), sp[1], sp[2]) for sp in lv]
                 cons = Constraint(lv) if lv else None
                 if prev is None:
                     t = mk_type(kind, cons)
@@ -409,7 +459,7 @@ def run(tier, seed):
                             t.size_c = cons
                 mod.add(name, t)
                 prev = name
-            adds = [s[2][1] for lv in levels for s in lv if s[2] is not None]
+            adds = [s[2][1] for lv in levels if not (isinstance(lv, tuple) and lv[0] == "base") for s in lv if s[2] is not None]
             cases.append((name, kind, mod.types[name], family, adds))
         text = mod.text()
         d = os.path.join(root, "m%d" % mi)
@@ -547,6 +597,10 @@ def run(tier, seed):
                     chk.violation(dict(base_key, symptom="printed-" + "+".join(what), syntax=syn),
                                   "%s: %s-visible constraint printed as %s, reference effective constraint lb=%s ub=%s%s" % (
                                       full, syn, pc.get(syn).strip(), wlb, want[1], " extensible" if (syn == "PER" and want[2]) else ""), replay)
+                elif syn == "PER" and kind == "INTEGER" and hasattr(g, "iset") and not base_key["additions"] and g.iset != rootset:
+                    chk.violation(dict(base_key, symptom="printed-holes", syntax=syn),
+                                  "%s: PER-visible constraint printed as %s, the effective constraint is the set %s" % (
+                                      full, pc.get(syn).strip(), rootset.iv[:6]), replay)
                 else:
                     chk.count("printed_ok_" + syn)
             # --- encodings
@@ -612,6 +666,15 @@ def run(tier, seed):
                               short(key[6]), items[0][1][0], items[0][0][:30], items[1][1][0], items[1][0][:30]), {"key": [str(k) for k in key]})
     chk.count("equivalence_groups", ngroups)
     return chk.finish(exhaustive=False)
+
+
+def subst_incl(tree, name):
+    k = tree[0]
+    if k == "incl":
+        return ("incl", name, tree[2], tree[3])
+    if k in ("val", "range"):
+        return tree
+    return (k,) + tuple(subst_incl(x, name) for x in tree[1:])
 
 
 def short(x):
